@@ -28,6 +28,26 @@ SplitLaws == /\ Split(<<"x", ";", "x">>, <<";">>) = <<<<"x">>, <<"x">>>>
              /\ Split(<<>>, <<";">>) = <<>>
 ASSUME SplitLaws
 ASSUME ndJsonSerialize("c23_lines.ndjson", SetToSeq({[s |-> s, sep |-> sep, rows |-> Split(s, sep)] : s \in Strs(MaxLen), sep \in Seps}))
+(* ---- long inputs, in run-length form ----
+   The scanner reads its input in pieces (4096 bytes at first, growing), so a multi-character separator can lie across the end of the data read
+   so far; the rows must not depend on where those read edges fall.  A long content is described by the lengths of its rows, each row a run of
+   "x" (a character no separator contains): by RunLemma - checked here on every small instance - such rows joined by the separator split into
+   exactly those rows.  The driver materialises the runs. *)
+Rep(c, n) == [i \in 1..n |-> c]
+RECURSIVE JoinRows(_, _)
+JoinRows(rows, sep) == IF rows = <<>> THEN <<>> ELSE IF Len(rows) = 1 THEN rows[1] ELSE rows[1] \o sep \o JoinRows(Tail(rows), sep)
+RunRows(ls) == [i \in 1..Len(ls) |-> Rep("x", ls[i])]
+RunLemma == \A sep \in Seps : \A ls \in [1..3 -> 0..2] : ls[3] > 0 => Split(JoinRows(RunRows(ls), sep), sep) = RunRows(ls)
+ASSUME RunLemma
+LongSeps == {sp \in Seps : Len(sp) >= 2}
+Edges == {4096, 8192, 16384, 32768}      \* rows stay below the scanner's 64 KiB token limit (longer rows are an input fault, C06)
+Tails == {<<1>>, <<0, 2>>, <<3, 0, 0, 1>>}
+(* many short rows: every read edge has a good chance of cutting a separator *)
+Short(n, a, b) == [i \in 1..n |-> IF i = n THEN 1 ELSE ((i * a + (i \div 7) * b) % 4)]
+LongCases == {[runs |-> <<e - d>> \o t, sep |-> sp] : e \in Edges, d \in 0..4, sp \in LongSeps, t \in Tails}
+             \cup {[runs |-> <<e - d, e - 3>> \o t, sep |-> sp] : e \in {4096}, d \in 0..4, sp \in LongSeps, t \in {<<1>>}}
+             \cup {[runs |-> Short(20000, a, b), sep |-> sp] : a \in {1, 3}, b \in {1, 2}, sp \in LongSeps}
+ASSUME ndJsonSerialize("c23_lines_long.ndjson", SetToSeq(LongCases))
 VARIABLE x
 Init == x = 0
 Next == x' = x
